@@ -321,7 +321,7 @@ func ValidateFlowControlConfiguration(schema *proxyv1alpha1.FlowControlSchemaCon
 		}
 	}
 	if schema.GlobalTokenBucket != nil {
-		if schema.GlobalTokenBucket.QPS == 0 {
+		if schema.GlobalTokenBucket.QPS <= 0 {
 			allErrs = append(allErrs, field.Invalid(fldPath.Child("globalTokenBucket").Child("qps"), schema.GlobalTokenBucket.QPS, "must bigger than 0"))
 		}
 		if schema.TokenBucket == nil {
@@ -341,7 +341,7 @@ func ValidateFlowControlConfiguration(schema *proxyv1alpha1.FlowControlSchemaCon
 
 func validateTokenBucketFlowControlSchema(tokenBucket *proxyv1alpha1.TokenBucketFlowControlSchema, fldPath *field.Path) field.ErrorList {
 	allErrs := field.ErrorList{}
-	if tokenBucket.QPS == 0 {
+	if tokenBucket.QPS <= 0 {
 		allErrs = append(allErrs, field.Invalid(fldPath.Child("qps"), tokenBucket.QPS, "must bigger than 0"))
 	}
 
